@@ -9,8 +9,9 @@ Open Scope N_scope.
 
 (* ---- complete and exact --------------------------------------------------------------------- *)
 (* Every document of the grammar — any well-nested sequence of text runs and domain tags (equivalently any tree,
-   C17_any_nesting), names [A-Za-z_][A-Za-z0-9_.-]*, blanks inside tags, text written with raw characters, any
-   entity spelling of a character, CR / CR LF line ends — whose lines are shorter than bufio.MaxScanTokenSize and
+   C17_any_nesting), names [A-Za-z_][A-Za-z0-9_.-]*, blanks inside tags, text written with raw ASCII characters,
+   runs of valid UTF-8, any entity spelling of a character (named, decimal, hexadecimal; >= 128 delivered UTF-8
+   encoded), CR / CR LF line ends — whose lines are shorter than bufio.MaxScanTokenSize and
    in which no key is named like a sub-domain of the same domain, is accepted, and the resulting tree represents
    exactly the document's events: every domain with all its lines in order, every key with its last value,
    nothing else, no duplicates. *)
@@ -18,6 +19,12 @@ Theorem C17_complete : forall ps,
   doc_ok ps -> short_lines (tokens_of ps) -> no_clobber (piece_events ps) ->
   exists t, parse (render ps) = Ok t /\ represents t (piece_events ps).
 Proof. exact ConfProofs.rendered_represented. Qed.
+
+(* ... and the hypothesis no_clobber cannot be dropped: a key line named like an earlier sub-domain of the same
+   domain replaces the sub-domain and everything written in it (known finding conf.name-collision/...) *)
+Theorem C17_complete_full_refuted : ~ (forall ps, doc_ok ps -> short_lines (tokens_of ps) ->
+  exists t, parse (render ps) = Ok t /\ represents t (piece_events ps)).
+Proof. exact ConfProofs.complete_full_refuted. Qed.
 
 Theorem C17_any_nesting : forall d, balanced (tokens_of (flatten_doc d)) = true.
 Proof. exact ConfProofs.flatten_doc_balanced. Qed.
@@ -143,6 +150,11 @@ Proof. exact ConfProofs.parse_error_cases. Qed.
 Theorem C17_old_loop_refuted : exists bs t, parse_old bs = Ok t /\ no_clobber (doc_events bs) /\ ~ represents t (doc_events bs).
 Proof. exact ConfProofs.parse_old_refuted. Qed.
 
+(* the repairs are conservative: whatever the repaired parser accepts, the old loop accepted with the same tree
+   (they only turn silent drops into errors) *)
+Theorem C17_repair_conservative : forall bs t, parse bs = Ok t -> parse_old bs = Ok t.
+Proof. exact ConfProofs.repair_conservative. Qed.
+
 (* ---- no panic -------------------------------------------------------------------------------- *)
 Theorem C17_no_panic_parse : forall bs n, parse bs <> Panic n.
 Proof. exact ConfProofs.parse_no_panic. Qed.
@@ -154,6 +166,7 @@ Theorem C17_no_panic_getters : forall s p,
 Proof. exact ConfProofs.getters_no_panic. Qed.
 
 Print Assumptions C17_complete.
+Print Assumptions C17_complete_full_refuted.
 Print Assumptions C17_any_nesting.
 Print Assumptions C17_tokens_exact.
 Print Assumptions C17_kv_line.
@@ -177,5 +190,6 @@ Print Assumptions C17_whole_or_error.
 Print Assumptions C17_whole_represented.
 Print Assumptions C17_outcomes.
 Print Assumptions C17_old_loop_refuted.
+Print Assumptions C17_repair_conservative.
 Print Assumptions C17_no_panic_parse.
 Print Assumptions C17_no_panic_getters.
